@@ -26,6 +26,7 @@ func TestTableLifeHTTP(t *testing.T) {
 		ln.Close()
 		return p
 	}
+	metricsOn := false
 	newSvc := func(port int) (*server.Service, *World) {
 		w := &World{cidSym: map[string]string{}, symCID: map[string]string{}, evIDs: map[interface{}]int{}, marks: map[string][]Rec{}, clients: map[string]*Client{}, https: map[string]*httpReq{}}
 		w.mq = newMockMQ(w)
@@ -35,6 +36,9 @@ func TestTableLifeHTTP(t *testing.T) {
 		sc.Addr = &addr
 		sc.Port = uint16(port)
 		sc.MetricsPort = 0
+		if metricsOn {
+			sc.MetricsPort = uint16(freePort())
+		}
 		svc, err := server.NewService(w.mq, sc)
 		if err != nil {
 			t.Fatalf("NewService: %v", err)
@@ -71,10 +75,12 @@ func TestTableLifeHTTP(t *testing.T) {
 	}
 	rounds := envInt("VERIF_LIFEHTTP_ROUNDS", 5)
 	// 1. Stop, then Start at once, several times: the new run must not be stopped by anything of the old one
-	for i := 0; i < rounds; i++ {
+	// (second half of the rounds: with the metrics endpoint listening too)
+	for i := 0; i < 2*rounds; i++ {
+		metricsOn = i >= rounds
 		port := freePort()
 		svc, _ := newSvc(port)
-		row := Rec{"kind": "restart", "round": i}
+		row := Rec{"kind": "restart", "round": i, "metrics": metricsOn}
 		if err := svc.Start(); err != nil {
 			row["startErr"] = err.Error()
 			enc.Encode(row)
@@ -98,6 +104,7 @@ func TestTableLifeHTTP(t *testing.T) {
 		row["secondStopped"] = y3 || y2
 		enc.Encode(row)
 	}
+	metricsOn = false
 	// 2. the listener cannot be opened: the service must fail-stop with the cause, and start again once the port is free
 	for i := 0; i < 2; i++ {
 		ln, err := net.Listen("tcp", "127.0.0.1:0")
